@@ -236,6 +236,7 @@ impl Runner {
         if want_trace || deferred {
             let mut ev = ev;
             ev["prefix"] = if deferred { bytes_j(&text[..fault as usize]) } else { bytes_j(&[]) };
+            ev["text"] = if deferred { bytes_j(text) } else { bytes_j(&[]) };
             ev["ro"] = ro.clone();
             self.trace.push(ev);
         }
@@ -256,7 +257,7 @@ impl Runner {
         if let Ok(s) = std::str::from_utf8(text) {
             self.evals += 1;
             let p = proj(&lexpr::from_str_custom(s, o));
-            let ev = json!({"ev":"run","src":"str","fault":-1,"invoked":false,"same": p == base,"kind":kind_of(&p),"carries":false,"prefixSyntax":false,"len":text.len()});
+            let ev = json!({"ev":"run","src":"str","fault":-1,"invoked":false,"same": p == base,"kind":kind_of(&p),"carries":false,"prefixSyntax":false,"determined":false,"len":text.len()});
             self.run_event(text, ro, "str", ev, want_trace);
         }
         // fault-free stream schedules
@@ -278,7 +279,7 @@ impl Runner {
                 Ok(r) => proj(&r),
                 Err(_) => json!({"k":"panic"}),
             };
-            let ev = json!({"ev":"run","src":"reader","fault":-1,"invoked":false,"same": p == base,"kind":kind_of(&p),"carries":false,"prefixSyntax":false,
+            let ev = json!({"ev":"run","src":"reader","fault":-1,"invoked":false,"same": p == base,"kind":kind_of(&p),"carries":false,"prefixSyntax":false,"determined":false,
                             "len":text.len(),"chunks":chunks,"intr":intr,"bufcap":bufcap});
             self.run_event(text, ro, "reader", ev, want_trace);
         }
@@ -304,8 +305,18 @@ impl Runner {
                 };
                 let prefix_syntax = matches!(std::panic::catch_unwind(|| lexpr::from_slice_custom(&text[..off], o)),
                                              Ok(Err(ref e)) if e.classify() == lexpr::parse::error::Category::Syntax);
+                // Did the delivered bytes determine the outcome?  Then every continuation of the prefix gives the very
+                // result of the faulted run (a fault taken for the end of input would not survive a continuation).
+                let determined = invoked.get() && r.is_ok() && !matches!(p["k"].as_str(), Some("ok") | Some("io")) && {
+                    const CONT: [&[u8]; 12] = [b" ", b")", b"]", b"a", b"0", b"\"", b" )", b"\n(", b"#", b"\\", b"'", b"xyz\n"];
+                    CONT.iter().all(|c| {
+                        let mut t = text[..off].to_vec();
+                        t.extend_from_slice(c);
+                        matches!(std::panic::catch_unwind(|| lexpr::from_slice_custom(&t, o)), Ok(ref q) if proj(q) == p)
+                    })
+                };
                 let ev = json!({"ev":"run","src":"reader","fault":off,"invoked":invoked.get(),"same": p == base,"kind":kind_of(&p),"carries":carries,
-                                "prefixSyntax":prefix_syntax,"len":text.len(),"chunks":chunks,"bufcap":bufcap});
+                                "prefixSyntax":prefix_syntax,"determined":determined,"len":text.len(),"chunks":chunks,"bufcap":bufcap});
                 self.distinct.insert((text.to_vec(), off as i64));
                 self.run_event(text, ro, "fault", ev, want_trace && off % 2 == 0);
             }
